@@ -108,6 +108,7 @@ type stepOut struct {
 	Requeue  bool              `json:"requeue"`
 	After    int64             `json:"requeue_after"`
 	Err      string            `json:"err,omitempty"`
+	ErrCount int               `json:"err_count"` // leaf errors in the returned aggregate
 	Panic    string            `json:"panic,omitempty"`
 	Stack    string            `json:"stack,omitempty"`
 	Stopped  bool              `json:"stopped,omitempty"`
@@ -611,6 +612,9 @@ func (w *world) runOp(op opSpec) (so stepOut) {
 		time.Sleep(time.Duration(op.Seconds) * time.Second)
 	case "restart":
 		w.freshControllers()
+	case "concurrent":
+		w.faults = op.Faults
+		w.concurrent(op)
 	case "kubelet":
 		if err := w.kubelet(op); err != nil {
 			so.Err = "kubelet: " + err.Error()
@@ -725,6 +729,7 @@ func (w *world) runOp(op opSpec) (so stepOut) {
 			}
 			so.Requeue, so.After = res.Requeue, int64(res.RequeueAfter)
 			if err != nil {
+				so.ErrCount = countErrors(err)
 				so.Err = err.Error()
 				if len(so.Err) > 300 {
 					so.Err = so.Err[:300]
@@ -747,6 +752,66 @@ func (w *world) runOp(op opSpec) (so stepOut) {
 	w.faults = nil
 
 	return so
+}
+
+// countErrors: the number of leaf errors of a (possibly nested) aggregate.
+func countErrors(err error) int {
+	if err == nil {
+		return 0
+	}
+	var agg interface{ Errors() []error }
+	if errors.As(err, &agg) {
+		n := 0
+		for _, e := range agg.Errors() {
+			n += countErrors(e)
+		}
+
+		return n
+	}
+
+	return 1
+}
+
+// concurrent runs the four controllers and a kubelet concurrently against the store for op.Seconds rounds:
+// the schedule is the runtime's; the race detector watches.
+func (w *world) concurrent(op opSpec) {
+	ctx := context.TODO()
+	rounds := int(op.Seconds)
+	if rounds <= 0 {
+		rounds = 3
+	}
+	var wg sync.WaitGroup
+	run := func(f func()) {
+		wg.Add(1)
+		go func() {
+			defer wg.Done()
+			defer func() { _ = recover() }()
+			for i := 0; i < rounds; i++ {
+				f()
+			}
+		}()
+	}
+	var edsl v1alpha1.ExtendedDaemonSetList
+	_ = w.raw.List(ctx, &edsl)
+	for i := range edsl.Items {
+		nn := types.NamespacedName{Namespace: edsl.Items[i].Namespace, Name: edsl.Items[i].Name}
+		run(func() { _, _ = w.eds.Reconcile(ctx, reconcile.Request{NamespacedName: nn}) })
+		run(func() { _, _ = w.pt.Reconcile(ctx, reconcile.Request{NamespacedName: nn}) })
+	}
+	var ersl v1alpha1.ExtendedDaemonSetReplicaSetList
+	_ = w.raw.List(ctx, &ersl)
+	for i := range ersl.Items {
+		nn := types.NamespacedName{Namespace: ersl.Items[i].Namespace, Name: ersl.Items[i].Name}
+		run(func() { _, _ = w.ers.Reconcile(ctx, reconcile.Request{NamespacedName: nn}) })
+	}
+	var setl v1alpha1.ExtendedDaemonsetSettingList
+	_ = w.raw.List(ctx, &setl)
+	for i := range setl.Items {
+		nn := types.NamespacedName{Namespace: setl.Items[i].Namespace, Name: setl.Items[i].Name}
+		run(func() { _, _ = w.set.Reconcile(ctx, reconcile.Request{NamespacedName: nn}) })
+	}
+	run(func() { _ = w.kubelet(opSpec{Cmd: "all"}) })
+	wg.Wait()
 }
 
 // expand turns a wildcard reconcile ("name":"*" for the replica-set controller: every replica set of the
